@@ -160,6 +160,7 @@ def check(pid, tier, seed, t0):
         print(f"KNOWN-FINDING: property={pid} {f['what']}")
 
     rc = 0
+    other_violations = []
     if violations:
         v = violations[0]
         path = C.write_replay(pid, {"property": pid, "kind": "oracle-violation", "suite": v["suite"],
@@ -167,6 +168,19 @@ def check(pid, tier, seed, t0):
                                     "replay": f"/venv/bin/python {os.path.join(HERE, 'replay.py')} <this file>"})
         print(f"VIOLATION property={pid} replay={path}")
         rc = 1
+        # further violations of a different shape (digits blanked) get their own replay files
+        import re
+        seen = {(v["suite"], re.sub(r"[0-9]+", "#", v["message"]))}
+        for v2 in violations[1:]:
+            key = (v2["suite"], re.sub(r"[0-9]+", "#", v2["message"]))
+            if key in seen or len(seen) >= 10:
+                continue
+            seen.add(key)
+            p2 = C.write_replay(pid, {"property": pid, "kind": "oracle-violation", "suite": v2["suite"],
+                                      "case": v2["case"], "observed": v2["impl"], "message": v2["message"],
+                                      "replay": f"/venv/bin/python {os.path.join(HERE, 'replay.py')} <this file>"})
+            other_violations.append({"suite": v2["suite"], "message": v2["message"][:300], "replay": p2})
+            print(f"  (also: {v2['suite']}: {v2['message'][:160]} -> {p2})", file=sys.stderr)
     elif disagreements:
         # the tie between model and code broke but the oracle accepted every trace: widen the search
         found = None
@@ -207,7 +221,8 @@ def check(pid, tier, seed, t0):
                        | {"disagreements": len(r["disagreements"]), "oracle_violations": len(r["violations"]),
                           "known_findings": len(r["known"])} for r in results],
             "samples": [s for r in results for s in r["samples"]][:6] + extra_info.get("samples", []),
-            "extra": {k: v for k, v in extra_info.items() if k not in ("violations", "known", "samples")},
+            "extra": {k: v for k, v in extra_info.items() if k not in ("violations", "known", "samples")}
+                     | ({"other_violations": other_violations} if other_violations else {}),
             "exhaustive": False,
         },
         "assumptions": spec.get("assumptions", []),
